@@ -141,6 +141,21 @@ class Prop:
                     print("  oracle: %s" % (mc.oracle_c14(c, blk) or "ok"))
             r.judge(exe, cases)
             return
+        if ctx.search_mode:
+            # an obligation or tie no longer checks: the model interprets skeletons that are not the declared ones and is
+            # no reference (two disagreements with it would end the run).  Look for a concrete failing input under the
+            # oracle alone first: corpus, every listed configuration, random programs.
+            exe = ctx.exe("monitor_drv", "dbg")
+            r.searching = True
+            try:
+                ctx.count("oracle_only_searches")
+                r.judge(exe, mc.corpus_cases("C14"))
+                if not ctx.stop() and self.systematic(ctx, r, exe, SMALL, 12000):
+                    self.random_cases(ctx, r, exe, 2500, 6)
+            finally:
+                r.searching = False
+            if ctx.stop():
+                return
         for fl in flavours:
             exe = ctx.exe("monitor_drv", fl)
             cases = mc.corpus_cases("C14")
@@ -148,34 +163,41 @@ class Prop:
             ctx.count("corpus_cases", len(cases))
             if ctx.stop():
                 return
-            heavy = ctx.search_mode or not ctx.quick()
+            heavy = not ctx.quick()
             if fl == "dbg":
                 # systematic part: every schedule with <= bound preemptions
-                total, complete = 0, []
-                limit = 12000 if heavy else 2500
-                for obj, threads, spur, bound in (SMALL if heavy else SMALL[:3]):
-                    c = mc.MCase(obj, threads, [], spur, "systematic")
-                    n, done = r.explore(exe, c, bound, limit)
-                    total += n
-                    complete.append({"object": obj, "threads": threads, "spurious": spur, "preemption_bound": bound,
-                                     "schedules": n, "complete": done})
-                    if ctx.stop():
-                        return
-                ctx.extra["systematic"] = complete
-                ctx.count("systematic_runs", total)
+                if not self.systematic(ctx, r, exe, SMALL if heavy else SMALL[:3], 12000 if heavy else 2500):
+                    return
             ncases = (4000 if fl == "dbg" else 600) if heavy else 600
-            batch = []
-            for i in range(ncases):
-                batch.append(gen_case(ctx.rng, 6 if heavy else 3))
-                if len(batch) >= 150:
-                    r.judge(exe, batch)
-                    batch = []
-                    if ctx.stop():
-                        return
-            if batch:
-                r.judge(exe, batch)
-            if ctx.stop():
+            if not self.random_cases(ctx, r, exe, ncases, 6 if heavy else 3):
                 return
+
+    def systematic(self, ctx, r, exe, plan, limit):
+        total, complete = 0, ctx.extra.get("systematic", [])
+        for obj, threads, spur, bound in plan:
+            c = mc.MCase(obj, threads, [], spur, "systematic")
+            n, done = r.explore(exe, c, bound, limit)
+            total += n
+            complete.append({"object": obj, "threads": threads, "spurious": spur, "preemption_bound": bound,
+                             "schedules": n, "complete": done, "oracle_only": r.searching})
+            if ctx.stop():
+                return False
+        ctx.extra["systematic"] = complete
+        ctx.count("systematic_runs", total)
+        return True
+
+    def random_cases(self, ctx, r, exe, ncases, nsched):
+        batch = []
+        for i in range(ncases):
+            batch.append(gen_case(ctx.rng, nsched))
+            if len(batch) >= 150:
+                r.judge(exe, batch)
+                batch = []
+                if ctx.stop():
+                    return False
+        if batch:
+            r.judge(exe, batch)
+        return not ctx.stop()
 
 
 PROP = Prop()
